@@ -61,6 +61,15 @@ RULE = ('streams: `faults` = for each of the 9 image classes x {caller file obje
 PENDING_FINDINGS = []
 
 AFF = [[2.0, 0, 0, -10], [0, 3, 0, -20], [0, 0, 4, -30], [0, 0, 0, 1]]
+# integer-valued affines (exact in float64 AND float32): sheared, flipped, permuted, non-unit last row is not used
+AFFS = [
+    [[2, 0, 0, -10], [0, 3, 0, -20], [0, 0, 4, -30], [0, 0, 0, 1]],
+    [[2, 0, 1, -11], [0, 3, 0, 7], [-1, 0, 4, 19], [0, 0, 0, 1]],
+    [[-3, 0, 0, 45], [0, 2, 0, -8], [0, 0, 5, 0], [0, 0, 0, 1]],
+    [[0, 2, 0, 6], [3, 0, 0, -9], [0, 0, -4, 12], [0, 0, 0, 1]],
+    [[1, 2, 3, 4], [-2, 5, 1, -7], [3, -1, 6, 9], [0, 0, 0, 1]],
+]
+ANALYZE_FAMILY = ('analyze', 'spm99', 'spm2')
 CLASSES = ['analyze', 'spm99', 'spm2', 'n1pair', 'n1single', 'n2pair', 'n2single', 'mgh', 'cifti2']
 NIFTI = ('n1pair', 'n1single', 'n2pair', 'n2single')
 NIFTI_CODES = {'uint8': 2, 'int16': 4, 'int32': 8, 'float32': 16, 'float64': 64, 'int8': 256, 'uint16': 512,
@@ -262,7 +271,15 @@ def build(d, harmonise=True):
         ser = axes.SeriesAxis(0, 1, arr.shape[0])
         img = n.Cifti2Image(arr, header=(ser, bm))
     else:
-        img = klass_of(cls)(arr, np.array(AFF))
+        aff = affine_of(d)
+        hdr_in = None
+        if d.get('endian'):
+            hdr_in = hdr_class(cls)(endianness=d['endian'])
+            hdr_in.set_data_dtype(arr.dtype)      # as the constructor does when it makes the header itself
+        img = klass_of(cls)(arr, None if aff is None else np.array(aff, dtype=np.float64), header=hdr_in)
+        if d.get('xflip') is not None:
+            # documented, valid, non-default header configuration (analyze.py:68-80): no implicit L/R flip
+            img.header.default_x_flip = bool(d['xflip'])
     hdr = header_of(cls, img)
     for i in range(d.get('ext', 0)):
         hdr.extensions.append(n.nifti1.Nifti1Extension('comment', EXTS[i]))
@@ -285,6 +302,32 @@ def build(d, harmonise=True):
         else:
             img.update_header()
     return img
+
+
+def affine_of(d):
+    """the affine of the configuration: default AFF, a 4x4 integer matrix, or None (`affine=None`)"""
+    a = d.get('aff', 'default')
+    if a == 'default':
+        return AFF
+    if a is None or a == 'none':
+        return None
+    return a
+
+
+def aff_token(d):
+    if d['cls'] == 'cifti2':
+        return '-'
+    a = affine_of(d)
+    if a is None:
+        return '-'
+    flat = [float(v) for row in a for v in row]
+    if any(v != int(v) for v in flat):
+        raise ValueError('non-integer affine')
+    return ','.join(str(int(v)) for v in flat)
+
+
+def xflip_of(cls, hdr):
+    return 1 if bool(getattr(hdr, 'default_x_flip', True)) else 0
 
 
 def header_of(cls, img):
@@ -317,8 +360,9 @@ def full_state(cls, img):
     st = {'header bytes': bytes(hdr.binaryblock), 'get_data_dtype()': str(img.get_data_dtype()),
           'alias': alias_of(img), 'data': hashlib.sha1(np.asanyarray(img.dataobj).tobytes()).hexdigest(),
           'data dtype': str(np.asanyarray(img.dataobj).dtype), 'fields': hdr_fields(cls, hdr)}
-    if hasattr(img, 'affine') and img.affine is not None:
-        st['affine'] = np.asarray(img.affine).tobytes()
+    aff = getattr(img, '_affine', None)
+    st['affine'] = None if aff is None else np.asarray(aff).tobytes()
+    st['header.default_x_flip'] = xflip_of(cls, hdr)
     exts = getattr(hdr, 'extensions', None)
     if exts is not None:
         st['extensions'] = repr([(e.get_code(), e.get_sizeondisk()) for e in exts])
@@ -340,12 +384,17 @@ def parse_dt(dt):
 
 def config_key(d):
     return (d['cls'], repr(sorted(d['data'].items())), d.get('ext', 0), d.get('setdt'), d.get('alias'),
-            repr(d.get('slope')), d.get('offset'))
+            repr(d.get('slope')), d.get('offset'), repr(d.get('aff', 'default')), d.get('xflip'), d.get('endian'),
+            repr(d.get('load')))
 
 
 def base_config(d):
-    """configuration without alias / explicit slope / explicit offset (for writer externals)"""
-    return {'cls': d['cls'], 'data': d['data'], 'ext': d.get('ext', 0)}
+    """configuration without alias / explicit slope / explicit offset / affine (for writer externals)"""
+    out = {'cls': d['cls'], 'data': d['data'], 'ext': d.get('ext', 0)}
+    for k in ('endian', 'load'):
+        if d.get(k) is not None:
+            out[k] = d[k]
+    return out
 
 
 def do_save(cls, img, owned, dt=None, fail_at=None, byte_budget=None):
@@ -412,7 +461,8 @@ def writer_entry(d, code_name):
         bmap = map_bytes(fm)
         hb = bmap['header'] if 'header' in bmap else bmap['image']
         if cls != 'mgh':
-            rec = np.frombuffer(hb[:hc.sizeof_hdr], dtype=hc.template_dtype)[0]
+            tdt = hc.template_dtype.newbyteorder(d['endian']) if d.get('endian') else hc.template_dtype
+            rec = np.frombuffer(hb[:hc.sizeof_hdr], dtype=tdt)[0]
             names = hc.template_dtype.names
             sl = bits(rec['scl_slope']) if has_slope and 'scl_slope' in names else 'n'
             it = bits(rec['scl_inter']) if has_inter and 'scl_inter' in names else 'n'
@@ -499,15 +549,16 @@ def protocol_line(d):
             dts = '-' if dt is None else ('ac' if dt == 'compat' else 'as' if dt == 'smallest' else
                                           'c%d' % code_of(cls, dt))
             fs = '-' if fault is None else f'{fault[0]}{fault[1]}'
-            ops.append(f'{op[0]}:{dts}:{fs}:{fm}')
+            ops.append(f'{op[0]}:{dts}:{fs}:{"-" if fm is None else fm}')
         elif op[0] == 'D':
             ops.append('D:%d' % code_of(cls, op[1]))
         elif op[0] == 'A':
             ops.append('A:' + op[1][0])
         else:
             raise ValueError(op)
-    return ('C07 run {cls} {owned} {off},{dt},{sl},{it} {alias} {exts} {mat} {res} {table} {ops}'.format(
+    return ('C07 run {cls} {owned} {off},{dt},{sl},{it} {alias} {aff} {xflip} {src} {exts} {mat} {res} {table} {ops}'.format(
         cls=cls, owned=int(d['owned']), off=off, dt=dtc, sl=sl, it=it, alias=alias_of(img),
+        aff=aff_token(d), xflip=xflip_of(cls, header_of(cls, img)), src='a',
         exts=','.join(f'{a}:{b}' for a, b in exts) or '-', mat=','.join(map(str, trailing)) or '-',
         res=resolve_of(d), table=';'.join(entries) or '-', ops=';'.join(ops)))
 
@@ -567,7 +618,10 @@ def configs(cls, tier):
     if cls == 'analyze':
         out.append(('f4', {'data': default_data(cls, 'f4')}, None))
         out.append(('f8,dtype=f4', {'data': default_data(cls, 'f8')}, 'float32'))
+        out.append(('f4 no x flip, sheared affine, big-endian header',
+                    {'data': default_data(cls, 'f4'), 'xflip': False, 'aff': AFFS[1], 'endian': '>'}, None))
         if tier != 'quick':
+            out.append(('f4 affine None', {'data': default_data(cls, 'f4'), 'aff': None}, None))
             out.append(('i2', {'data': default_data(cls, 'i2')}, None))
             out.append(('f8->i2 (WriterError)', {'data': default_data(cls, 'f8'), 'setdt': 'int16'}, None))
         return out
@@ -580,6 +634,25 @@ def configs(cls, tier):
         return out
     out.append(('f8->i2', {'data': default_data(cls, 'f8'), 'setdt': 'int16'}, None))
     out.append(('f8,dtype=i2', {'data': default_data(cls, 'f8')}, 'int16'))
+    if cls in ('spm99', 'spm2'):
+        # header configuration `default_x_flip = False` (the .mat arithmetic takes the other branch)
+        out.append(('f8->i2 no x flip, sheared affine',
+                    {'data': default_data(cls, 'f8'), 'setdt': 'int16', 'xflip': False, 'aff': AFFS[1]}, None))
+        out.append(('f4 affine None (no .mat)', {'data': default_data(cls, 'f4'), 'aff': None}, None))
+        if tier != 'quick' or cls == 'spm2':
+            out.append(('f8->i2 big-endian header, permuted affine',
+                        {'data': default_data(cls, 'f8'), 'setdt': 'int16', 'endian': '>', 'aff': AFFS[3]}, None))
+        if tier != 'quick':
+            out.append(('f4 no x flip, general affine, dtype=u1',
+                        {'data': default_data(cls, 'f4'), 'xflip': False, 'aff': AFFS[4]}, 'uint8'))
+            out.append(('f8->i2 explicit flip flag True, flipped affine',
+                        {'data': default_data(cls, 'f8'), 'setdt': 'int16', 'xflip': True, 'aff': AFFS[2]}, None))
+    if cls in ('n1pair', 'n2single'):
+        out.append(('f8->i2 big-endian header, sheared affine',
+                    {'data': default_data(cls, 'f8'), 'setdt': 'int16', 'endian': '>', 'aff': AFFS[1]}, None))
+    elif cls in NIFTI and tier != 'quick':
+        out.append(('f8->i2 big-endian header, general affine',
+                    {'data': default_data(cls, 'f8'), 'setdt': 'int16', 'endian': '>', 'aff': AFFS[4]}, None))
     if cls in NIFTI:
         out.append(('f8->i2+ext', {'data': default_data(cls, 'f8'), 'setdt': 'int16', 'ext': 2}, None))
         out.append(('i8 alias smallest', {'data': default_data(cls, 'i8small'), 'alias': 'smallest'}, None))
@@ -625,6 +698,16 @@ def rand_history(rng, cls, tier):
         d['data']['shape'] = rng.choice([[2, 3, 4], [3, 3, 2, 2], [4, 2, 3]] + ([] if cls == 'mgh' else [[6, 5]]))
     if cls in NIFTI and rng.random() < 0.3:
         d['ext'] = rng.choice([1, 2, 3])
+    if cls != 'cifti2':
+        q = rng.random()
+        if q < 0.45:
+            d['aff'] = rng.choice(AFFS)
+        elif q < 0.6 and cls in ANALYZE_FAMILY:
+            d['aff'] = None
+        if cls in ANALYZE_FAMILY and rng.random() < 0.5:
+            d['xflip'] = rng.random() < 0.3
+        if cls != 'mgh' and rng.random() < 0.25:
+            d['endian'] = rng.choice(['>', '<'])
     r = rng.random()
     supported = [n for n in DTNAMES if code_of(cls, n) in (NIFTI_CODES.values() if cls != 'mgh' else (0, 1, 3, 4))
                  and _supported(cls, n)]
@@ -653,7 +736,7 @@ def rand_history(rng, cls, tier):
                 fault = ['k', rng.randrange(1, 22)]
             elif q < 0.6:
                 fault = ['b', rng.randrange(0, 1600)]
-            ops.append(['S', dt, fault, len(ops) + 1])
+            ops.append(['S', dt, fault, None if rng.random() < 0.15 else len(ops) + 1])
         elif r < 0.85:
             ops.append(['D', rng.choice(DTNAMES)])
         else:
@@ -682,7 +765,8 @@ def cases(rng, tier):
                 d0.setdefault('ops', [])
                 n, nbytes = clean_calls(d0, owned, dt)
                 for k in range(1, n + 2):
-                    d = dict(d0, ops=[['S', dt, ['k', k], 1], ['S', dt, None, 2], ['S', None, None, 3]])
+                    d = dict(d0, ops=[['S', dt, ['k', k], 1], ['S', dt, None, 2], ['S', None, None, 3]] +
+                             ([['S', dt, None, None]] if k % 3 == 0 else []))      # … and `to_file_map()` (own file_map)
                     out.append(mk_case(d, 'faults'))
                 # byte budgets
                 if tier == 'quick':
@@ -715,8 +799,8 @@ def shrink_candidates(case):
     for i in range(len(ops)):
         if len(ops) > 1:
             yield mk_case(dict(d, ops=ops[:i] + ops[i + 1:]), d.get('stream', 'shrunk'))
-    for k in ('ext', 'slope', 'offset'):
-        if d.get(k):
+    for k in ('ext', 'slope', 'offset', 'endian', 'xflip', 'aff'):
+        if k in d:
             d2 = dict(d)
             d2.pop(k)
             yield mk_case(d2, d.get('stream', 'shrunk'))
@@ -733,6 +817,46 @@ def first_seen(table, x):
     return table[x]
 
 
+def state_token(cls, img, hdr0, fm_ids, hseen, aseen, dseen):
+    hdr = header_of(cls, img)
+    off, dtc, sl, it = hdr_fields(cls, hdr)
+    hid = first_seen(hseen, hashlib.sha1(bytes(hdr.binaryblock)).hexdigest())
+    hobj = 0 if hdr is hdr0 else 1
+    aff = getattr(img, '_affine', None)
+    aid = first_seen(aseen, None if aff is None else np.asarray(aff, dtype=np.float64).tobytes())
+    try:
+        dd = hashlib.sha1(np.ascontiguousarray(np.asanyarray(img.dataobj)).tobytes()).hexdigest()
+    except Exception as e:      # the image's data cannot be read any more
+        dd = 'unreadable:' + type(e).__name__
+    did = first_seen(dseen, dd)
+    return (f'{off},{dtc},{sl},{it},{alias_of(img)},{fm_ids.get(id(img.file_map), 99)},{hobj},h{hid},a{aid},'
+            f'x{xflip_of(cls, hdr)},d{did}')
+
+
+def mat_ints(raw):
+    """the variables M and mat of a MATLAB-4 `.mat` file as exact integers (or 'nonint')"""
+    import scipy.io as sio
+    mats = sio.loadmat(io.BytesIO(raw))
+    out = []
+    for k in ('M', 'mat'):
+        if k not in mats:
+            out.append('-')
+            continue
+        a = np.asarray(mats[k], dtype=np.float64)
+        if a.shape != (4, 4) or not np.all(a == np.round(a)):
+            out.append('nonint')
+        else:
+            out.append(','.join(str(int(v)) for v in a.ravel()))
+    return out
+
+
+def mat_token(bmap):
+    if not bmap or not bmap.get('mat'):
+        return ''
+    M, mat = mat_ints(bmap['mat'])
+    return f' M={M}/{mat}'
+
+
 def impl(case):
     d = case.data
     if d.get('op') == 'byname':
@@ -742,14 +866,10 @@ def impl(case):
     hdr0 = header_of(cls, img)
     fm_ids = {id(img.file_map): 0}
     keep = [img.file_map]
-    hseen, oseen = {}, {}
+    hseen, oseen, aseen, dseen = {}, {}, {}, {}
 
     def state():
-        hdr = header_of(cls, img)
-        off, dtc, sl, it = hdr_fields(cls, hdr)
-        hid = first_seen(hseen, hashlib.sha1(bytes(hdr.binaryblock)).hexdigest())
-        hobj = 0 if hdr is hdr0 else 1
-        return f'{off},{dtc},{sl},{it},{alias_of(img)},{fm_ids.get(id(img.file_map), 99)},{hobj},h{hid}'
+        return state_token(cls, img, hdr0, fm_ids, hseen, aseen, dseen)
 
     parts = [state()]
     recs = []
@@ -759,11 +879,18 @@ def impl(case):
             before = full_state(cls, img)
             budget = Budget(fault[1] if fault and fault[0] == 'k' else None, fault[1] if fault and fault[0] == 'b' else None)
             fm = make_map(cls, budget, d['owned'])
-            fm_ids[id(fm)] = fmid
-            keep.append(fm)
             kw = {} if dt is None else {'dtype': parse_dt(dt)}
+            if fmid is None:
+                # `to_file_map()` without a file_map: the image's OWN file_map (same dict object) gets the holders
+                for key, holder in fm.items():
+                    img.file_map[key] = holder
+                args = ()
+            else:
+                fm_ids[id(fm)] = fmid
+                keep.append(fm)
+                args = (fm,)
             try:
-                img.to_file_map(fm, **kw)
+                img.to_file_map(*args, **kw)
                 res = 'ok'
             except Exception as e:
                 res = canon_err(e)
@@ -772,7 +899,7 @@ def impl(case):
             oid = first_seen(oseen, digest(bmap)) if bmap is not None else '-'
             recs.append({'j': j, 'op': op, 'res': res, 'before': before, 'after': after, 'bytes': bmap,
                          'log': list(budget.log)})
-            parts.append(f'{res} n={budget.count} [{",".join(budget.log)}] {state()} out={oid}')
+            parts.append(f'{res} n={budget.count} [{",".join(budget.log)}] {state()} out={oid}{mat_token(bmap)}')
         elif op[0] in ('D', 'A'):
             try:
                 img.set_data_dtype(np.dtype(op[1]) if op[0] == 'D' else op[1])
@@ -876,8 +1003,9 @@ def decode_check(d, rec_desc, bmap, applied, dt, autoscale):
     if cls != 'cifti2':
         hdr = back.header
         if cls in NIFTI or cls == 'mgh' or cls in ('spm99', 'spm2'):
-            if not np.allclose(back.affine, np.array(AFF), rtol=1e-5, atol=1e-4):
-                return f'{rec_desc}: loaded affine differs: {back.affine.tolist()}'
+            want = affine_of(d)
+            if want is not None and not np.allclose(back.affine, np.array(want, dtype=float), rtol=1e-5, atol=1e-4):
+                return f'{rec_desc}: loaded affine differs: {back.affine.tolist()} (image affine {want})'
     else:
         hdr = back.nifti_header
     if not autoscale:
